@@ -153,6 +153,18 @@ impl From<std::ops::RangeFrom<usize>> for Slice {
         ensures s.start == r.start, s.end == None::<usize>
     { unimplemented!() }
 }
+impl From<std::ops::RangeToInclusive<usize>> for Slice {
+    #[verifier::external_body]
+    fn from(r: std::ops::RangeToInclusive<usize>) -> (s: Slice)
+        ensures s.start == 0, s.end == Some((r.end + 1) as usize), r.end < usize::MAX
+    { unimplemented!() }
+}
+impl From<std::ops::Range<usize>> for Slice {
+    #[verifier::external_body]
+    fn from(r: std::ops::Range<usize>) -> (s: Slice)
+        ensures s.start == r.start, s.end == Some(r.end)
+    { unimplemented!() }
+}
 pub open spec fn slice_end(s: Slice, n: int) -> int { match s.end { Some(e) => e as int, None => n } }
 
 // ---- A-RNG: rand::thread_rng().gen_range(lo..hi) returns *some* value in the range -------------
